@@ -2150,6 +2150,9 @@ def analyse(chk):
                                                why='accumulate-only native outputs need a zeroed buffer, otherwise features contain the previous call\'s results'))
     chk.guard(lambda c_: core.include_findings(c_, 'C10', files=['ciderpress/lib/mod_cider/cider_coefs.c', 'ciderpress/lib/mod_cider/convolutions.c', 'ciderpress/lib/mod_cider/conv_interpolation.c', 'ciderpress/lib/mod_cider/fast_sdmx.c', 'ciderpress/lib/mod_cider/sph_harm.c'], rules=None,
                                                why='a data race in the anchored feature kernels makes the features schedule dependent'))
+    chk.guard(lambda c_: core.include_findings(c_, 'C03', files=['ciderpress/dft/plans.py'], rules=['sdmx-deg'],
+                                               why='the SDMX fit matrices must be stored in the block order (and with the powers) that the contraction in '
+                                                   'get_features / get_vxc assumes, otherwise the features are not the documented integrals'))
 
 
 def mutants(tree):
@@ -2228,6 +2231,8 @@ def mutants(tree):
         Mutant("lowmem loop indexes the one-exponent result without reshape", "ciderpress/pyscf/sdmx_slow.py",
                "                _cao = _cao.reshape(ncpa, coords.shape[0], -1)\n", "", expect="rank-drop"),
         Mutant("index clipped before the ladder -> knot rescale", PLANS, fn=_clip_first, expect="inverse-pair"),
+        Mutant("SDMXPlan H^1 matrices built for the last n1t powers, contracted as the first", PLANS, "for n in settings.pows[:n1t]",
+               "for n in settings.pows[-n1t:]", expect="via-C03"),
         Mutant("knot-index scaling off by one", PLANS, "di[:] *= (self._spline_size - 1) / (self.nalpha - 1)",
                "di[:] *= self._spline_size / self.nalpha", expect="inverse-pair"),
         Mutant("knot layout off by one", PLANS, "interp_indexes * (self.nalpha - 1) / (self._spline_size - 1)",
